@@ -466,6 +466,56 @@ impl Pattern {
     }
 }
 
+/// known answers: request bodies whose validity under the CreateResponseBody schema is clear from reading the
+/// documents; (body, valid)
+#[allow(dead_code)]
+pub fn known_bodies() -> Vec<(Value, bool)> {
+    use serde_json::json;
+    let fo = |cid: &str| json!({"type":"function_call_output","call_id":cid,"output":"{}"});
+    let fc = |cid: &str, name: &str| json!({"type":"function_call","id":"fc_1","call_id":cid,"name":name,"arguments":"{}"});
+    let body = |input: Value| json!({"model":"m","stream":true,"tool_choice":"auto","tools":[{"type":"function","name":"read"}],"input":input});
+    let mut many = serde_json::Map::new();
+    for i in 0..17 {
+        many.insert(format!("k{i}"), json!("v"));
+    }
+    vec![
+        (json!({"model":"m","input":"hi","stream":true}), true),
+        (body(json!([fo("call_1")])), true),
+        (body(json!([{"type":"message","role":"user","content":"p"}, fc("call_1", "read_file-2"), {"type":"function_call_output","id":"output_call_1","call_id":"call_1","output":"{}"}])), true),
+        (body(json!([fo(&"é".repeat(64))])), true),
+        (body(json!([fc("c", &"N".repeat(64))])), true),
+        (json!({"model":"m","input":[fo("c")],"previous_response_id":"resp_1","tool_choice":{"type":"function","name":"read"}}), true),
+        (json!({"model":"m","input":"hi","tool_choice":{"type":"allowed_tools","mode":"auto","tools":[{"type":"function","name":"read"}]}}), true),
+        (json!({"model":"m","input":"hi","metadata":{"a":"b"},"max_output_tokens":16}), true),
+        (body(json!([fo(&"x".repeat(65))])), false),
+        (body(json!([fo(&"é".repeat(65))])), false),
+        (body(json!([fo("")])), false),
+        (body(json!([fc("c", "a.b")])), false),
+        (body(json!([fc("c", "")])), false),
+        (body(json!([fc("c", &"n".repeat(65))])), false),
+        (body(json!([fc(&"y".repeat(300), "read")])), false),
+        (body(json!([{"type":"function_call","call_id":"c","name":"read"}])), false),
+        (body(json!([{"type":"function_call","call_id":"c","name":"read","arguments":5}])), false),
+        (body(json!([{"type":"frobnicate","call_id":"c"}])), false),
+        (body(json!([5])), false),
+        (body(json!({})), false),
+        (body(json!([{"type":"message","role":"tool","content":"p"}])), false),
+        (body(json!([{"type":"function_call_output","call_id":"c","output":5}])), false),
+        (body(json!([{"type":"function_call_output","call_id":"c","output":"{}","status":"bogus"}])), false),
+        (body(json!([{"type":"function_call_output","output":"{}"}])), false),
+        (json!({"model":"m","input":"hi","tool_choice":{"type":"function"}}), false),
+        (json!({"model":"m","input":"hi","tool_choice":"sometimes"}), false),
+        (json!({"model":"m","input":"hi","tools":"x"}), false),
+        (json!({"model":"m","input":"hi","tools":[{"type":"function"}]}), false),
+        (json!({"model":"m","input":"hi","stream":"yes"}), false),
+        (json!({"model":"m","input":"hi","max_output_tokens":3}), false),
+        (json!({"model":"m","input":"hi","metadata":Value::Object(many)}), false),
+        (json!({"model":"m","input":"hi","metadata":{"a":"v".repeat(513)}}), false),
+        (json!({"model":7,"input":"hi"}), false),
+        (json!(["not","an","object"]), false),
+    ]
+}
+
 #[allow(dead_code)]
 pub fn self_test() -> Vec<String> {
     let mut bad = vec![];
